@@ -365,9 +365,11 @@ def restrict(ex, st, a):
         cst = fresh("rs", term.sort())
         ax = z3.ForAll(ks, sel(cst, *ks) == z3.If(rng, sel(term, *ks), dflt), patterns=[sel(cst, *ks)])
         cache[key] = (cst, ax, term)
-        ex.ctx.__dict__.setdefault("restrict_log", []).append((cst, a.ndim))
+
     if not any(h.eq(ax) for h in st.pc[-60:]):
         st.assume(ax, tag="def:restrict")
+    # every use is logged (cache hits too): the relational mode pairs the k-th restricted array of one run with the k-th of the other
+    ex.ctx.__dict__.setdefault("restrict_log", []).append((cst, a.ndim))
     return cst
 
 
